@@ -258,6 +258,7 @@ def store_case(rep, drv, rng, tmpdir):
 	spellings = [path, os.path.relpath(path), os.path.join(tmpdir, '.', base), os.path.join(tmpdir, '..', os.path.basename(tmpdir), base),
 				 tmpdir + os.sep + os.sep + base]
 	spell = lambda: rng.choice(spellings) if rng.random() < .5 else path
+	rng_s = random.Random(sum(map(ord, base)))          # own stream for the decisions added later: the main one is unchanged
 	ops = []; py_res = []
 	n_ops = rng.randint(2, 10)
 	nets = {}
@@ -270,13 +271,30 @@ def store_case(rep, drv, rng, tmpdir):
 				warnings.simplefilter('ignore')
 				if use_net:
 					data = single_stage_system(holding_cost=tok, stockout_cost=9, demand_type='P', mean=3, policy_type='BS', base_stock_level=4)
+					simulated = rng_s.random() < .6
+					if simulated:
+						# a network that has been simulated carries its state variables; saving (with or without them, whether or not anything
+						# ends up being written) must leave them where they are
+						from stockpyl.sim import simulation
+						simulation(data, 3, rand_seed=tok, progress_bar=False)
+						rep.count('store:saved-a-simulated-network')
 					before = copy.deepcopy(data)
+					sv_before = [None if n_.state_vars is None else [sv_.to_dict() for sv_ in n_.state_vars] for n_ in data.nodes]
+					if k == 0 and not os.path.exists(path) and rng_s.random() < .5:
+						save_instance(name, data, 'd', filepath=path, create_if_none=False)          # documented no-op: no file, none created
+						rep.count('store:save-to-missing-file-without-create')
+						if os.path.exists(path):
+							rep.diff('store', 'save_instance(create_if_none=False) created the file', ops, oracle=True, theorem=THEOREM)
 				else:
 					data = {'token': tok, 'list': [1, 2, tok]}
 					before = copy.deepcopy(data)
 				save_instance(name, data, 'd', filepath=spell(), replace=rep_flag)
 				if use_net and not before.deep_equal_to(data) or (not use_net and before != data):
 					rep.diff('store', 'save_instance altered the object being saved', ops, oracle=True)
+				elif use_net and sv_before != [None if n_.state_vars is None else [sv_.to_dict() for sv_ in n_.state_vars] for n_ in data.nodes]:
+					rep.diff('store', 'save_instance(name=%r, replace=%s) altered the state variables of the network being saved (%s periods before; now %s)' % (
+						name, rep_flag, [None if v is None else len(v) for v in sv_before], [None if n_.state_vars is None else len(n_.state_vars) for n_ in data.nodes]),
+						ops + [{'op': 'save', 'name': name, 'data': tok, 'replace': rep_flag, 'simulated': True}], oracle=True, theorem=THEOREM)
 			ops.append({'op': 'save', 'name': name, 'data': tok, 'replace': rep_flag}); py_res.append(None)
 		else:
 			name = rng.choice(names)
